@@ -698,7 +698,7 @@ let run_wsjson kvs ikvs =
   | _ -> "equal=true"
 
 (* ---- suite life: the scenario's abstract schedule in Model/Life.v ---- *)
-type lact = RunCall of int | IOok of int | IOfail of int | Cancel of int | TL | Timer of int
+type lact = RunCall of int | IOok of int | IOfail of int | Cancel of int | TL | Timer of int | One of int (* one non-alt step *) | AltStep of int (* one alt step: the <-closed / <-ctx.Done branch of a select *)
 
 let run_life kvs _ =
   let scen = get kvs "scen" in
@@ -731,6 +731,12 @@ let run_life kvs _ =
       ([(0, [LCloseRead (nat_of_int 9, nat_of_int 100); wr 1; wr 1; wr 1; wr 2]); (100, [])], [RunCall 0; RunCall 100] @ sect 0 @ sect 0 @ sect 0 @ [Cancel 1; TL] @ sect 0, [(0, 1); (0, 1); (0, 2); (0, 1)], 0)
     | "cancel-during-stream-write" ->
       ([(0, [LCloseRead (nat_of_int 9, nat_of_int 100); wr 1; wr 1]); (100, [])], [RunCall 0; RunCall 100] @ sect 0 @ [RunCall 0; Cancel 1; TL; RunCall 0; RunCall 100], [(0, 1); (0, 1); (0, 1)], 0)
+    | "cancel-while-waiting-for-lock" ->
+      (* thread 1 = A (blocked in I/O under Background), thread 0 = B: waits for the lock, its context ends, it gives up; the timeout
+         goroutine closes; A's I/O fails *)
+      ([(0, [wr 1]); (1, [wr 0])], [RunCall 1; One 0; Cancel 1; AltStep 0; TL; RunCall 1], [(0, 1); (1, 1)], 0)
+    | "cancel-before-read" -> ([0, [rd 1]], [Cancel 1; One 0; AltStep 0; TL], [(0, 1)], 0)
+    | "cancel-before-write" -> ([0, [wr 1]], [Cancel 1; One 0; AltStep 0; TL], [(0, 1)], 0)
     | "cancel-during-write" -> ([0, [wr 1]], [RunCall 0; Cancel 1; TL; RunCall 0], [(0, 1)], 0)
     | "closenow-reader-blocked" -> ([(0, [LCloseNow]); (1, [rd 1])], [RunCall 1; RunCall 0; TL; RunCall 0; RunCall 1], [(0, 1); (1, 1)], 0)
     | "closenow-writer-blocked" -> ([(0, [LCloseNow]); (1, [wr 1])], [RunCall 1; RunCall 0; TL; RunCall 0; RunCall 1], [(0, 1); (1, 1)], 0)
@@ -756,7 +762,9 @@ let run_life kvs _ =
       | IOfail t -> ignore (stepn (LIOFail (nat_of_int t)))
       | Cancel c -> ignore (stepn (LCancel (nat_of_int c)))
       | TL -> ignore (stepn LTimeout)
-      | Timer t -> ignore (stepn (LWaitTimer (nat_of_int t)))) sched;
+      | Timer t -> ignore (stepn (LWaitTimer (nat_of_int t)))
+      | One t -> ignore (stepn (LStep (nat_of_int t, false)))
+      | AltStep t -> ignore (stepn (LStep (nat_of_int t, true)))) sched;
     (* results per harness step: a group of consecutive model calls of a thread, ok iff all ROk *)
     let taken = Hashtbl.create 4 in
     let res = List.map (fun (t, n) ->
